@@ -112,6 +112,24 @@ func floorDiv(a int64, b int64) int64 {
 	return q
 }
 
+// divideFloat splits amount into a whole count of multiplier and the rest. For a non-negative amount
+// the count is the largest one with count*multiplier <= amount, so the rest is never negative.
+func divideFloat(amount float64, multiplier int64) (int64, float64) {
+	if amount >= 1<<53 && amount < 1<<63 {
+		// From 2^53 on every float64 is a whole number: divide exactly. (The float quotient is rounded
+		// there and can be too large by more than one.)
+		whole := int64(amount)
+		count := floorDiv(whole, multiplier)
+		return count, float64(whole - count*multiplier)
+	}
+	count := int64(math.Floor(amount / float64(multiplier)))
+	if float64(count*multiplier) > amount {
+		// The quotient was rounded up to the next whole number.
+		count--
+	}
+	return count, amount - float64(count*multiplier)
+}
+
 func formatNumberUnitLong[T NumberType](amount T, unit Unit, displayZero bool) string {
 	var formatString string
 	switch any(amount).(type) {
@@ -197,9 +215,9 @@ func (u *UnitsDefinition) FormatShortFloat(data float64) string {
 	remainder := data
 	output := ""
 	for _, multiplier := range u.getSortedMultipliersCache() {
-		base := int64(math.Floor(remainder / float64(multiplier)))
-		remainder -= float64(base * multiplier)
-		output += u.Multipliers()[multiplier].FormatShortFloat(float64(base), false)
+		var base int64
+		base, remainder = divideFloat(remainder, multiplier)
+		output += u.Multipliers()[multiplier].FormatShortInt(base, false)
 	}
 	output += u.BaseUnit().FormatShortFloat(remainder, false)
 	return output
@@ -229,9 +247,9 @@ func (u *UnitsDefinition) FormatLongFloat(data float64) string {
 	remainder := data
 	output := ""
 	for _, multiplier := range u.getSortedMultipliersCache() {
-		base := int64(math.Floor(remainder / float64(multiplier)))
-		remainder -= float64(base * multiplier)
-		output += u.Multipliers()[multiplier].FormatLongFloat(float64(base), false)
+		var base int64
+		base, remainder = divideFloat(remainder, multiplier)
+		output += u.Multipliers()[multiplier].FormatLongInt(base, false)
 	}
 	output += u.BaseUnit().FormatLongFloat(remainder, false)
 	return output
